@@ -212,13 +212,14 @@ PROPS['C03'] = {
     'kani': [],
     'oracle': 'C03',
     'decided': ['lcp() (Kasai): GIVEN a sorted suffix array of a single-sentinel text of length >= 2, the LCP array holds -1 at both ends and the TRUE longest-common-prefix length of every pair of adjacent suffixes (suffix-order theory: lcp characterisation, antisymmetry, transitivity, sandwich lemma, Kasai lemma - all proved; termination of the scan proved)',
+                'shortest_unique_substrings (the real generic function, any SuffixArray implementor characterised by its view): GIVEN a sorted suffix array and its LCP array, entry p is Some(l) exactly for the shortest substring starting at p that occurs nowhere else in the text (l = 1 + max of the two adjacent LCP values, by the two sandwich lemmas), and None exactly when no substring starting at p is unique; no cast or arithmetic failure for texts of at least two symbols',
                 'the LCP-array container SmallInts<i8, isize> behaves as a plain Vec<isize> for every value incl. exactly 127, larger and negative (unit shared with C18)',
                 'bwt/less/Occ (used by the sampled suffix array walk, every Occ sampling rate) are exact (units shared with C04)'],
     'undecided': ['SA-IS construction (Sais::{construct, calc_lms_pos, sort_lms_suffixes, calc_pos}): that the array IS sorted - induced sorting correctness is out of reach of the contracts built here (the lcp proof takes sortedness as a precondition)',
-                  'shortest_unique_substrings against its brute-force definition', 'SampledSuffixArray::get walk', 'transform_text / sentinel_count (closure adapters, generic casts)'],
-    'trusted': ['SmallInts stub inside C03/lcp carries exactly the from_elem/set contracts proved in C18/smallints', 'cmp::min std spec', 'as C18 / C04 for the shared units'],
-    'level_text': 'Verus proves the LCP computation (Kasai) correct for every sorted suffix array of a single-sentinel text, plus the containers and tables the module builds on; that SA-IS produces the sorted array is NOT decided by contracts (bounded stand-in only).',
-    'level_note': 'Level other (partial): LCP given sortedness, containers, tables. Suffix sorting itself undecided.',
+                  'SampledSuffixArray::get walk', 'transform_text / sentinel_count (closure adapters, generic casts)'],
+    'trusted': ['SmallInts stub inside C03/lcp carries exactly the from_elem/set/get contracts proved in C18/smallints', 'SuffixArray trait reduced to get/len with the obvious view contract (RawSuffixArray = Vec<usize> implements it by slice access: not verified here)', 'cmp::min std spec', 'as C18 / C04 for the shared units'],
+    'level_text': 'Verus proves the LCP computation (Kasai) and the shortest-unique-substring table correct for every sorted suffix array of a single-sentinel text, plus the containers and tables the module builds on; that SA-IS produces the sorted array is NOT decided by contracts (bounded stand-in only).',
+    'level_note': 'Level other (partial): LCP and shortest unique substrings given sortedness, containers, tables. Suffix sorting itself undecided.',
 }
 
 NOT_APPLICABLE = {
